@@ -32,7 +32,12 @@ def generate(tier, seed):
     fixed = [('p :- q.', 'p :- not not q.'), ('p(1..3).', 'p(1). p(2). p(3).'), (':- p(X), q(X).', ':- q(X), p(X).'),
              ('p(X + 1) :- q(X).', 'p(X) :- q(X - 1).'), ('p :- q. p :- not q.', 'p.' if False else 'p :- q.'),
              ('p(a). q(b) :- p(a).', 'p(a) :- s, a < s1. s.'), ('', ':- 1 < 2. :- a = b. :- 3 != 3.'), (':- 1 < 2. :- a = b.', ''),
-             ('p. q. r. s.', 'p :- q. q :- r. r :- s. s.')]
+             ('p. q. r. s.', 'p :- q. q :- r. r :- s. s.'),
+             # a name used both as a propositional atom and as a symbolic constant, in one program or in both; constants
+             # named like the here/there copies of a propositional atom (the names anthem renames), true and false claims
+             ('p(a). :- a, not a.', 'p(a).'), ('q :- a0 < a. :- a, not a.', 'q.'), ('p(a) :- a.', 'p(a) :- a, not not a.'),
+             ('q :- s, hs < hs0.', 'q :- s.'), ('q :- s, ts = ts.', 'q :- s, hs != ts.'), ('p(hs) :- s.', 'p(ts) :- s.'),
+             ('q(hs, ts) :- s.', 'q(hs, ts) :- s, hs < ts.')]
     n = 150 if tier == 'quick' else 676
     items = []
     for (l, r) in fixed + pairs[:n]:
@@ -93,7 +98,7 @@ def check_item(item):
                      detail='; '.join(issues), replay={'request': render(req), 'expected': render(resp)})
             out.append(r)
             continue
-        aliases = symbol_aliases(problems)
+        aliases = symbol_aliases(problems, (left, right))
         for d in want_dirs:
             probs = [p for p in problems if direction_of(p) == d]
             key = (d, problems_key(probs))
